@@ -61,6 +61,15 @@ M['c11_b2_preserve_frozenset'] = ('C11', 'quiet', 'benign: preserve lists are so
     (INIT, "        preserve_globals = list(preserve_globals)\n", "        preserve_globals = sorted(set(preserve_globals))\n"),
 ])
 
+M['c11_b3_global_lock'] = ('C11', 'quiet', 'benign: minify() serialised by a module-level threading.RLock (a thread-safety fix); the scheduler must see the lock instead of dead-locking', [
+    (INIT, "def minify(\n    source,\n    filename=None,\n    remove_annotations=RemoveAnnotationsOptions(),", "_MINIFY_LOCK = __import__('threading').RLock()\n\n\ndef minify(*args, **kwargs):\n    with _MINIFY_LOCK:\n        return _minify(*args, **kwargs)\n\n\ndef _minify(\n    source,\n    filename=None,\n    remove_annotations=RemoveAnnotationsOptions(),"),
+])
+M['c11_b4_lock_fixes_m3'] = ('C11', 'quiet', 'the class-level _hoisted dict of mutant m3 made safe by the same global lock: must be quiet', [
+    (INIT, "def minify(\n    source,\n    filename=None,\n    remove_annotations=RemoveAnnotationsOptions(),", "_MINIFY_LOCK = __import__('threading').RLock()\n\n\ndef minify(*args, **kwargs):\n    with _MINIFY_LOCK:\n        return _minify(*args, **kwargs)\n\n\ndef _minify(\n    source,\n    filename=None,\n    remove_annotations=RemoveAnnotationsOptions(),"),
+    (LITERALS, "    def __call__(self, module, ignore_slots=True):\n        self.module = module\n        self._ignore_slots = ignore_slots\n        self._hoisted = {}\n",
+               "    _hoisted = {}\n\n    def __call__(self, module, ignore_slots=True):\n        self.module = module\n        self._ignore_slots = ignore_slots\n        self._hoisted.clear()\n"),
+])
+
 # ---------------------------------------------------------------------------------------------- C15
 M['c15_n1_suffix_in'] = ('C15', 'detect', "suffix test `'.py' in file`: .pyc/.py~/.pyi files are rewritten too", [
     (MAIN, "                    if file.endswith(('.py', '.pyw')):", "                    if '.py' in file:"),
@@ -114,6 +123,10 @@ M['c15_b4_module_level_seen'] = ('C15', 'quiet', 'benign in a one-shot process: 
     (MAIN, "def source_modules(args):\n", "_SEEN = []\n\n\ndef source_modules(args):\n"),
     (MAIN, "        for path in source_modules(args):\n", "        for path in source_modules(args):\n            if (args.in_place and os.path.realpath(path) in _SEEN):\n                continue\n            _SEEN.append(os.path.realpath(path))\n"),
 ])
+M['c15_b5_os_level_write'] = ('C15', 'quiet', 'benign: in-place write-back through os.open/os.write (bypasses builtins.open: write faults stop firing, end-state rules must still hold)', [
+    (MAIN, "            if args.in_place:\n                with open(path, 'wb') as f:\n                    f.write(minified)\n",
+           "            if args.in_place:\n                fd = os.open(path, os.O_WRONLY | os.O_TRUNC)\n                try:\n                    os.write(fd, minified)\n                finally:\n                    os.close(fd)\n"),
+])
 M['c15_b3_pathlib_io'] = ('C15', 'quiet', 'benign: reads through pathlib', [
     (MAIN, "            with open(path, 'rb') as f:\n                source = f.read()\n", "            import pathlib\n            source = pathlib.Path(path).read_bytes()\n"),
 ])
@@ -149,6 +162,13 @@ M['c13_no_annotations_keeps_class_attr'] = ('C13', 'detect', '--no-remove-annota
 M['c13_stdin_output_loses_flags'] = ('C13', 'detect', 'the stdin branch minifies with a defaults-only namespace when --output is given', [
     (MAIN, "        try:\n            minified = do_minify(source, 'stdin', args)\n", "        try:\n            minified = do_minify(source, 'stdin', args if not args.output else parse_defaults(args))\n"),
     (MAIN, "def source_modules(args):", "def parse_defaults(args):\n    import copy\n    d = copy.copy(args)\n    d.rename_globals = False\n    d.preserve_globals = None\n    return d\n\n\ndef source_modules(args):"),
+])
+
+M['c13_b1_parser_error'] = ('C13', 'quiet', 'benign: invalid combinations rejected through parser.error() (exit status 2 instead of 1, usage text on stderr)', [
+    (MAIN, "    if len(args.path) > 1 and not args.in_place:\n        sys.stderr.write('error: multiple path arguments, --in-place required\\n')\n        sys.exit(1)\n",
+           "    if len(args.path) > 1 and not args.in_place:\n        parser.error('multiple path arguments, --in-place required')\n"),
+    (MAIN, "        sys.stderr.write('error: --remove-class-attribute-annotations would do nothing when used with --no-remove-annotations\\n')\n        sys.exit(1)\n",
+           "        parser.error('--remove-class-attribute-annotations would do nothing when used with --no-remove-annotations')\n"),
 ])
 
 # ---------------------------------------------------------------------------------------------- C14
